@@ -1176,6 +1176,9 @@ class IOStream(BaseIOStream):
            `.Future` instead.
 
         """
+        # Like write(), connect() on a stream that has already been closed
+        # fails with StreamClosedError (self.socket is None by then).
+        self._check_closed()
         self._connecting = True
         future: Future[_IOStreamType] = Future()
         self._connect_future = typing.cast("Future[IOStream]", future)
